@@ -398,6 +398,10 @@ def run_check_(tier, r):
         ("this.a % 3", lambda: this.a % 3, lambda a, k: bool(a % 3)),
         ("~(this.a < 128)", lambda: ~(this.a < 128), lambda a, k: not (a < 128)),
         ("lambda", lambda: (lambda ctx: ctx.a * 2 < ctx._params.k), lambda a, k: a * 2 < k),
+        # falsy answers other than False: None (a lookup that found nothing), 0, empty string / list
+        ("lambda -> None", lambda: (lambda ctx: (ctx.a > 3) or None), lambda a, k: a > 3),
+        ("lambda -> dict.get", lambda: (lambda ctx: {5: "five", 6: ""}.get(ctx.a)), lambda a, k: a == 5),
+        ("lambda -> list", lambda: (lambda ctx: [ctx.a] * (ctx.a & 1)), lambda a, k: a & 1 == 1),
         ("True", lambda: True, lambda a, k: True),
         ("False", lambda: False, lambda a, k: False),
     ]
